@@ -26,6 +26,12 @@
 (*                         name's handle from every layer                  *)
 (*   StaticSlotsUnmangled  D22: private-style names (__x) are not declared *)
 (*                         as __slots__ (the class body would mangle them) *)
+(*   WalkLinksOnlyCreated  D23 (introduced by the first fix of D14): a     *)
+(*                         composite key links the maps it creates, it     *)
+(*                         does not re-link the existing maps it walks     *)
+(*                         through (FALSE: every map on the way is linked  *)
+(*                         to the map it was reached from — steals the     *)
+(*                         back-link of a map that was moved elsewhere)    *)
 (* Non-vacuity switch (no defect behind it; FALSE = a plausible mutant):   *)
 (*   CacheTestsFlag        __call__ tests the _cached flag, not the value  *)
 (***************************************************************************)
@@ -44,7 +50,8 @@ CONSTANTS MapOrder,     \* sequence of map ids (strings); MapOrder[1] is the roo
           Staging,      \* BOOLEAN: resources may be moved out of a staging map into the main tree (see SetItem)
           KindChoices,  \* set of functions [Hd -> Kinds]: what load() returns
           ClsChoices,   \* set of functions [Names -> NameClasses]: lexical class of each name
-          ImplicitMapsLinked, ClearAllLayers, SetItemPopsAllLayers, StaticSlotsUnmangled, CacheTestsFlag
+          ImplicitMapsLinked, ClearAllLayers, SetItemPopsAllLayers, StaticSlotsUnmangled, CacheTestsFlag,
+          WalkLinksOnlyCreated
 
 VARIABLES maps, layers, parent, key,          \* ResourceMap tables and back-links
           cached, value, gen, kind,           \* Handle: _cached, _cache (serial), loads so far, value kind (fixed)
@@ -153,7 +160,10 @@ Walk(t, cur, acur, p, avoid) ==
                     ELSE [t.ab EXCEPT ![acur] = Put(@, k, <<"m", nxt>>), ![nxt] = Empty]
          IN IF nxt = None THEN [t |-> t, tgt |-> None, atgt |-> None]
             ELSE IF f = None
-            THEN Walk([t EXCEPT !.ly = ly1, !.ab = ab1], nxt, anxt, Tail(p), avoid)
+            THEN Walk([t EXCEPT !.ly = ly1, !.ab = ab1,
+                               !.pa = IF WalkLinksOnlyCreated THEN @ ELSE [@ EXCEPT ![nxt] = cur],
+                               !.ky = IF WalkLinksOnlyCreated THEN @ ELSE [@ EXCEPT ![nxt] = k]],
+                      nxt, anxt, Tail(p), avoid)
             ELSE Walk([mp |-> [t.mp EXCEPT ![cur] = Put(@, k, f)],
                        ly |-> [ly1 EXCEPT ![f] = <<Empty>>],
                        pa |-> [t.pa EXCEPT ![f] = IF ImplicitMapsLinked THEN cur ELSE None],
